@@ -14,7 +14,7 @@ fn sentinel(i: usize) -> u8 {
 }
 
 pub fn run(ctx: &mut Ctx) {
-    let n = ctx.n(320, 5000);
+    let n = ctx.n(320, 30_000);
     for i in 0..n {
         if !ctx.mine(i) {
             continue;
